@@ -294,6 +294,7 @@ pub struct Stats {
     pub p_bit_already_set: u64,
     pub p_zip_late_row: u64,
     pub p_multi_end: u64,
+    pub p_multi_end_gt10: u64,
     pub p_backpressure: u64,
     pub p_err_in_flush: u64,
     pub p_err_saturated: u64,
@@ -315,7 +316,7 @@ impl Stats {
         acc!(
             f_spurious, f_new_waker, f_same_waker, f_stale, f_dup, f_inpoll, f_selfnow, f_lock,
             f_after_done, f_after_drop, f_cancel, f_panic, f_never, f_slot_reuse, f_growth,
-            f_delayed, p_repoll_after_selfwake, p_bit_already_set, p_zip_late_row, p_multi_end,
+            f_delayed, p_repoll_after_selfwake, p_bit_already_set, p_zip_late_row, p_multi_end, p_multi_end_gt10,
             p_backpressure, p_err_in_flush, p_err_saturated, p_err_in_progress, p_big_len, p_remove_live, p_refill, root_polls,
             child_polls, wakes, group_ops, vtime, steps
         );
@@ -325,7 +326,7 @@ impl Stats {
         lst!(
             f_spurious, f_new_waker, f_same_waker, f_stale, f_dup, f_inpoll, f_selfnow, f_lock,
             f_after_done, f_after_drop, f_cancel, f_panic, f_never, f_slot_reuse, f_growth,
-            f_delayed, p_repoll_after_selfwake, p_bit_already_set, p_zip_late_row, p_multi_end,
+            f_delayed, p_repoll_after_selfwake, p_bit_already_set, p_zip_late_row, p_multi_end, p_multi_end_gt10,
             p_backpressure, p_err_in_flush, p_err_saturated, p_err_in_progress, p_big_len, p_remove_live, p_refill, root_polls,
             child_polls, wakes, group_ops, vtime, steps
         )
